@@ -29,7 +29,10 @@ func class(s string) string {
 }
 
 // fault kinds
-var unsupportedKinds = []string{"chan", "func", "iface", "unsafeptr", "ustruct"}
+// the last group is legal Go that a plugin may well support: then exit 0 with a well-typed package is the
+// clean ending, and anything else has to be a diagnostic
+var unsupportedKinds = []string{"chan", "func", "iface", "unsafeptr", "ustruct",
+	"ustruct1", "ustruct1c", "ustruct0", "ustructblank", "blankfield", "blankonly"}
 var positions = []string{"top", "field", "elem", "value", "ptr", "key", "arrayelem", "nested"}
 var typedPlugins = []string{"equal", "equalc", "compare", "hash", "deepcopy", "clone", "gostring", "keys", "sort", "minl", "maxt", "contains", "unique", "set", "unionl", "intersectm", "filter", "mem", "fmap", "join", "tuple", "traverse"}
 
@@ -43,9 +46,33 @@ func unsupported(kind string) *progen.Type {
 		return progen.AnyT()
 	case "unsafeptr":
 		return &progen.Type{Kind: progen.UPtr}
+	case "ustruct1": // gofmt prints a one-field struct type on one line
+		return &progen.Type{Kind: progen.UStruct, Fields: []progen.Field{{Name: "A", Type: progen.SliceOf(progen.B("int"))}}}
+	case "ustruct1c":
+		return &progen.Type{Kind: progen.UStruct, Fields: []progen.Field{{Name: "A", Type: progen.B("int")}}}
+	case "ustruct0":
+		return &progen.Type{Kind: progen.UStruct}
+	case "ustructblank":
+		return &progen.Type{Kind: progen.UStruct, Fields: []progen.Field{{Name: "A", Type: progen.B("int")}, {Name: "_", Type: progen.B("int")}, {Name: "B", Type: progen.SliceOf(progen.B("string"))}}}
+	case "blankfield":
+		return progen.NamedT(&progen.Decl{Name: "Blank", IsStruct: true, Fields: []progen.Field{{Name: "A", Type: progen.B("int")}, {Name: "_", Type: progen.B("int")},
+			{Name: "B", Type: progen.SliceOf(progen.B("string"))}, {Name: "_", Type: progen.B("string")}}})
+	case "blankonly":
+		return progen.NamedT(&progen.Decl{Name: "BlankOnly", IsStruct: true, Fields: []progen.Field{{Name: "_", Type: progen.B("int")}}})
 	default:
 		return &progen.Type{Kind: progen.UStruct, Fields: []progen.Field{{Name: "A", Type: progen.SliceOf(progen.B("int"))}, {Name: "B", Type: progen.B("string")}}}
 	}
+}
+
+// kindDecl is the declaration a kind needs in the package.
+func kindDecl(kind string) string {
+	switch kind {
+	case "blankfield":
+		return "type Blank struct {\n\tA int\n\t_ int\n\tB []string\n\t_ string\n}\n\n"
+	case "blankonly":
+		return "type BlankOnly struct {\n\t_ int\n}\n\n"
+	}
+	return ""
 }
 
 type faultCase struct {
@@ -198,6 +225,21 @@ var misuses = []misuse{
 	{"variadic", "uncurry", "deriveUncurryX(func(a int) func(b ...string) bool { return nil })"},
 	{"variadic", "compose", "deriveComposeX(func(a ...int) (int, error) { return 0, nil }, func(int) (int, error) { return 0, nil })"},
 	{"variadic", "toerror", "deriveToErrorX(nil, func(a ...int) bool { return true })"},
+	{"variadic", "pipeline", "derivePipelineX(func(a ...string) <-chan int { return nil }, func(x int) <-chan string { return nil })"},
+	{"variadic", "pipeline", "derivePipelineX(func(a string) <-chan []int { return nil }, func(x ...int) <-chan string { return nil })"},
+	{"variadic", "filter", "deriveFilterX(func(a ...int) bool { return true }, [][]int{})"},
+	{"variadic", "all", "deriveAllX(func(a ...int) bool { return true }, [][]int{})"},
+	{"variadic", "any", "deriveAnyX(func(a ...int) bool { return true }, [][]int{})"},
+	{"variadic", "takewhile", "deriveTakeWhileX(func(a ...int) bool { return true }, [][]int{})"},
+	{"variadic", "traverse", "deriveTraverseX(func(a ...int) (string, error) { return \"\", nil }, [][]int{})"},
+	{"variadic", "fmap", "deriveFmapX(func(a ...int) string { return \"\" }, [][]int{})"},
+	{"variadic", "fmap", "deriveFmapX(func(a ...rune) string { return \"\" }, \"abc\")"},
+	{"variadic", "fmap", "deriveFmapX(func(a ...int) string { return \"\" }, func() ([]int, error) { return nil, nil })"},
+	{"variadic", "fmap", "deriveFmapX(func(a ...int) string { return \"\" }, make(chan []int))"},
+	{"variadic", "do", "deriveDoX(func(a ...int) (int, error) { return 0, nil }, func() (int, error) { return 0, nil })"},
+	{"variadic", "join", "deriveJoinX(func(a ...int) (int, error) { return 0, nil }, nil)"},
+	{"variadic", "dup", "deriveDupX(make(chan func(...int)))"},
+	{"variadic", "tuple", "deriveTupleX(func(a ...int) {}, 1)"},
 	{"noerror", "compose", "deriveComposeX(func() (int, string) { return 0, \"\" }, func(int) (int, error) { return 0, nil })"},
 	{"noerror", "traverse", "deriveTraverseX(func(int) (int, int) { return 0, 0 }, []int{})"},
 	{"noerror", "do", "deriveDoX(func() (int, int) { return 0, 0 }, func() (int, error) { return 0, nil })"},
@@ -259,6 +301,7 @@ func drawFault(t *rapid.T, n int) *faultCase {
 		plugin := typedPlugins[rapid.IntRange(0, len(typedPlugins)-1).Draw(t, "plugin")]
 		u := unsupported(kind)
 		at, decl := place(t, p, u, pos, n)
+		decl = kindDecl(kind) + decl
 		if plugin == "deepcopy" && at.Kind != progen.Ptr && at.Kind != progen.Slice && at.Kind != progen.Map {
 			at = progen.PtrTo(at)
 		}
@@ -401,6 +444,7 @@ func sweep(c *pkit.Ctx) {
 				p, _ := base()
 				u := unsupported(kind)
 				at, decl := place(nil, p, u, pos, 0)
+				decl = kindDecl(kind) + decl
 				if plugin == "deepcopy" && at.Kind != progen.Ptr && at.Kind != progen.Slice && at.Kind != progen.Map {
 					at = progen.PtrTo(at)
 				}
@@ -412,6 +456,24 @@ func sweep(c *pkit.Ctx) {
 				p.Add("%s\nfunc u() {\n\t%s\n}\n", decl, call)
 				run(&faultCase{plugin: pl, fault: "unsupported:" + kind, position: pos, unsupportedArg: true, desc: call}, p.Files())
 			}
+		}
+	}
+	// an untyped nil as every argument in turn (it has no type a plugin could support)
+	for _, plugin := range typedPlugins {
+		ts := "[]int"
+		full := callFor(plugin, deriveName[plugin]+"X", ts)
+		z := zero(ts)
+		for k := 0; k < strings.Count(full, z); k++ {
+			// replace the k-th occurrence of the typed zero by nil
+			idx, from := -1, 0
+			for j := 0; j <= k; j++ {
+				idx = strings.Index(full[from:], z) + from
+				from = idx + len(z)
+			}
+			call := full[:idx] + "nil" + full[idx+len(z):]
+			p, _ := base()
+			p.Add("func u() {\n\t%s\n}\n", call)
+			run(&faultCase{plugin: plugin, fault: "untyped-nil", position: fmt.Sprintf("arg%d", k), unsupportedArg: true, desc: call}, p.Files())
 		}
 	}
 	for _, m := range misuses {
